@@ -508,8 +508,8 @@ func c15Factory(c *Ctx, r *Report) {
 				for _, rs := range fr.returns {
 					fresh := false
 					if ifc, ok := rs.vals[0].(AIface); ok {
-						if p, ok := ifc.val.(APtr); ok && p.obj != nil && !p.obj.symbolic && p.obj.alloc != nil && p.obj.alloc.Parent() == body && p.path == "" {
-							fresh = true
+						if p, ok := ifc.val.(APtr); ok && p.obj != nil && !p.obj.symbolic && p.obj.alloc != nil && p.path == "" && allocatedUnder(fr, p.obj) {
+							fresh = true // allocated by this call: in the factory itself or in a constructor it calls
 						}
 					}
 					if !fresh {
@@ -727,4 +727,19 @@ func c15NoAlias(c *Ctx, r *Report, rule string) {
 			r.fail(rule, id, "the parsed request keeps a slice of its input: the next read into the server's buffer changes a request that was already handed to the handler", c.pos(pi.fn.Pos()), bad, "request-aliases-input")
 		}
 	}
+}
+
+// allocatedUnder: the object was created while evaluating frame f or a frame inlined under it.
+func allocatedUnder(f *Frame, o *Obj) bool {
+	for _, x := range f.objs {
+		if x == o {
+			return true
+		}
+	}
+	for _, ch := range f.child {
+		if allocatedUnder(ch, o) {
+			return true
+		}
+	}
+	return false
 }
